@@ -7,23 +7,24 @@ require (
 	example.com/wb2 v0.0.0
 	example.com/wb3 v0.0.0
 	example.com/wb4 v0.0.0
-	github.com/quasilyte/go-ruleguard v0.0.0
-	github.com/quasilyte/go-ruleguard/dsl v0.3.22
-	github.com/quasilyte/gogrep v0.5.0
-	golang.org/x/tools v0.30.0
-	example.com/rb1 v0.0.0
-	example.com/rb2 v0.0.0
-	example.com/io v0.0.0
 	example.com/a/foo v0.0.0
 	example.com/b/foo v0.0.0
 	example.com/c20/lib v0.0.0
 	example.com/c20bundle v0.0.0
+	example.com/chk v0.0.0
+	example.com/io v0.0.0
+	example.com/rb1 v0.0.0
+	example.com/rb2 v0.0.0
+	github.com/quasilyte/go-ruleguard v0.0.0
+	github.com/quasilyte/go-ruleguard/dsl v0.3.22
+	github.com/quasilyte/gogrep v0.5.0
+	github.com/quasilyte/stdinfo v0.0.0-20220114132959-f7386bf02567
+	golang.org/x/tools v0.30.0
 )
 
 require (
 	github.com/go-toolsmith/astcopy v1.0.2 // indirect
 	github.com/go-toolsmith/astequal v1.0.3 // indirect
-	github.com/quasilyte/stdinfo v0.0.0-20220114132959-f7386bf02567 // indirect
 	golang.org/x/exp/typeparams v0.0.0-20240213143201-ec583247a57a // indirect
 )
 
@@ -45,6 +46,9 @@ replace example.com/c20/lib => ./fake/c20lib
 
 // rule bundle whose groups have Import() sets of their own (C20)
 replace example.com/c20bundle => ./fake/c20bundle
+
+// third-party package for the C05 generated rules files
+replace example.com/chk => ./fake/c05chk
 
 // rule bundles imported by the C01 load histories (wb1: last file has only comment rules, wb4: no syntax rules at all)
 replace example.com/wb1 => ./fake/wb1
